@@ -107,6 +107,11 @@ func runC03(c *fw.Ctx, idx int) fw.Result {
 			W = r.Range(121, 2000)
 		}
 		n := r.Range(1, 40)
+		if idx%150 == 9 {
+			// very wide alignments (position labels beyond 2^15, 2^16, 2^17)
+			W = []int{r.Range(32700, 40000), r.Range(65500, 70000), r.Range(131000, 140000)}[r.Intn(3)]
+			n = r.Range(1, 4)
+		}
 		p := gen.SeqProfile{PAmbig: 0.15, PGap: 0.08, PQ: 0.03, PLower: 0.2}
 		ref = gen.RandSeq(r, W, gen.SeqProfile{PAmbig: 0.1, PGap: 0.04, PQ: 0.01, PLower: 0.2})
 		for i := 0; i < n; i++ {
@@ -154,6 +159,10 @@ func runC03(c *fw.Ctx, idx int) fw.Result {
 		wc := len(ref) / 50
 		if wc > 10 {
 			wc = 10
+		}
+		if len(ref) > 32768 {
+			wc = 11 + len(ref)/65536
+			res.Count("wide_alignments_beyond_32768_columns", 1)
 		}
 		res.Sig(fmt.Sprintf("shape|%d|%d|%v", wc, len(recs), hard))
 	}
